@@ -3,8 +3,14 @@ Model of x/mint AfterEpochEnd + DistributeMintedCoin (+ pool-incentives Allocate
 distribution table, the state the engine runs in).  Amounts are sdk Ints (`Int`), proportions and
 provisions raw 18-decimal `Dec`s.  `none` = the hook returns an error (the epoch hook wrapper then
 discards every state change of this call).  Core only.
+
+The ARITHMETIC is not written here: `getProportions`, the reduction (`Minter.NextEpochProvisions`) and the
+minted amount (`Minter.EpochProvision`) are the definitions REGENERATED from the Go source by the expression
+translator (`Gen/MintFn.lean`, DESIGN §2.1), so a changed operator/operand/comparison in x/mint changes
+this model and the theorems of Props/C18 are re-checked against it.
 -/
 import OsmoVerif.Model.Num
+import OsmoVerif.Gen.MintFn
 
 namespace OsmoVerif.Mint
 open OsmoVerif.Num
@@ -43,11 +49,9 @@ structure Obs where
   mintAccountAfter : Int  -- what is left in the mint module account
   deriving Repr, DecidableEq
 
-/-- `getProportions`: ratio > 1 is an error; `amount.ToLegacyDec().Mul(ratio).TruncateInt()`. -/
-def getProportions (amount ratio : Int) : Option Int :=
-  if ratio > P18 then none else do
-    let m ← Dec.mul (amount * P18) ratio
-    Dec.truncateInt m
+/-- `getProportions`: ratio > 1 is an error; `amount.ToLegacyDec().Mul(ratio).TruncateInt()`, `sdk.NewCoin`
+(panics on a negative amount).  The generated definition. -/
+def getProportions (amount ratio : Int) : Option Int := Gen.Mint.getProportions amount ratio
 
 def payReceivers (dev : Int) : List Receiver → Option (List Int)
   | [] => some []
@@ -66,14 +70,13 @@ def afterEpochEnd (p : Params) (s : State) (e : Int) : Option (State × Option O
   if e < p.startEpoch then some (s, none) else
   let last0 := if e = p.startEpoch then e else s.lastReduction
   let reduce : Bool := e ≥ p.reductionPeriod + last0
-  match (if reduce then Dec.mul s.provisions p.reductionFactor else some s.provisions) with
+  match (if reduce then Gen.Mint.NextEpochProvisions s.provisions p.reductionFactor else some s.provisions) with
   | none => none
   | some prov =>
     let last := if reduce then e else last0
-    match Dec.truncateInt prov with
+    match Gen.Mint.EpochProvision prov with   -- `TruncateInt`, then sdk.NewCoin (panics on a negative amount)
     | none => none
     | some minted =>
-      if minted < 0 then none else   -- sdk.NewCoin panics on a negative amount
       match getProportions minted p.staking, getProportions minted p.poolIncentives, getProportions minted p.developer with
       | some st, some pl, some dv =>
         if s.devVesting < dv then none else
